@@ -51,6 +51,7 @@ def steps(token, key, frame, bad_token, bad_key):
         "clock_8d": ("adv", 8 * 24 * 3600 * 1000 + 3 * 3600 * 1000),
         "clock_life": ("adv", 61 * 1000),
         "clock_1s": ("adv", 1000),
+        "clock_7h": ("adv", 7 * 3600 * 1000),          # two of them exceed the 12 h authentication lifetime, one does not
     }
 
 
@@ -97,6 +98,18 @@ KNOWN = {
 def expiry_oracle(ctx, stream, inp, res, ops):
     dev = res["dev"]
     times = res["times"]
+    # whatever the history: a data packet is never written more than 12 h (+ the few seconds a handshake can take) after the
+    # latest handshake request on its connection - the lifetime runs from the handshake, not from the last traffic
+    last_hs = {}
+    for e in dev.log:
+        t = sessim.ms(e["t"])
+        if e["kind"] == "hs":
+            last_hs[e["cid"]] = t
+        elif e["kind"] == "data" and e["cid"] in last_hs and t - last_hs[e["cid"]] > 12 * 3600 * 1000 + 10000:
+            ctx.violate(stream, inp, {"cid": e["cid"], "data_at_ms": t, "latest_handshake_at_ms": last_hs[e["cid"]]},
+                        "a handshake within the last 12 h on that connection",
+                        "a data packet was written more than 12 h after the latest handshake on its connection")
+            break
     for i, op in enumerate(ops):
         if op[0] != "adv":
             continue
@@ -244,6 +257,11 @@ def run(ctx):
         for pre in ([], ["send"], ["send_close"], ["clock_13h"], ["auth_bad"]):
             for post in (["send"], ["send", "send"], ["auth_good", "send"]):
                 run_one(ctx, "cancel", rng, pre + [c] + post, with_life=False)
+    # the 12 h run from the HANDSHAKE: regular traffic must not extend them
+    for h in (["send", "clock_7h", "send", "clock_7h", "send", "send"], ["clock_7h", "send", "clock_7h", "send"],
+              ["send", "clock_7h", "send_push", "clock_7h", "send", "clock_7h", "send", "clock_7h", "send"],
+              ["clock_7h", "send_silent", "clock_7h", "send", "send"]):
+        run_one(ctx, "regular_traffic_expiry", rng, h, with_life=False)
     # a handshake reply that arrives AFTER its request was abandoned (timed out / cancelled).  When it is already queued
     # at the start of the next handshake it must be discarded (the flush at the top of authenticate); when it is still in
     # flight at that moment the library cannot tell it from the answer to the new request - known finding D13.
@@ -252,7 +270,7 @@ def run(ctx):
             for gap in ([], ["clock_1s"]):
                 for post in (["send"], ["send", "send"], ["auth_good", "send"]):
                     run_one(ctx, "late_handshake_reply", rng, pre + [c] + gap + post, with_life=False)
-    alphabet = alphabet + jumps + cancels + ["send_hs_error", "send_hs_garbage", "auth_reply_bad", "send_hs_late", "auth_late", "clock_1s"]
+    alphabet = alphabet + jumps + cancels + ["send_hs_error", "send_hs_garbage", "auth_reply_bad", "send_hs_late", "auth_late", "clock_1s", "clock_7h", "clock_7h"]
     for _ in range(150 if not thorough else 3000):
         names = [rng.choice(alphabet) for _ in range(rng.randrange(3, 13 if not thorough else 31))]
         late = {"send_hs_late", "auth_late", "send_cancel_hs_late", "auth_cancel_late"}
